@@ -11,6 +11,7 @@ import (
 	"io"
 	"os"
 	"path/filepath"
+	"strconv"
 	"strings"
 
 	"github.com/opencontainers/go-digest"
@@ -54,6 +55,13 @@ func buildArchive(sb *sandbox, p Push, k int) (blob []byte, tarDigest digest.Dig
 		default:
 			h.Typeflag = tar.TypeFifo
 			h.Name = strings.TrimRight(h.Name, "/")
+		}
+		if e.M != "" {
+			m, err := strconv.ParseInt(e.M, 8, 64)
+			if err != nil {
+				return nil, "", fmt.Errorf("entry %d: mode %q: %w", j, e.M, err)
+			}
+			h.Mode = m
 		}
 		if err := tw.WriteHeader(h); err != nil {
 			return nil, "", fmt.Errorf("entry %d: %w", j, err)
@@ -168,6 +176,26 @@ func errClass(err error) string {
 	default:
 		return "error:fs"
 	}
+}
+
+// remodedOnly: every change is a modification that keeps type and content and
+// alters the permission bits only.
+func remodedOnly(chs []change) bool {
+	for _, ch := range chs {
+		if ch.Kind != "modified" {
+			return false
+		}
+		b, a := strings.Fields(ch.Before), strings.Fields(ch.After)
+		if len(b) < 2 || len(a) != len(b) || b[0] != a[0] || b[1] == a[1] {
+			return false
+		}
+		for i := 2; i < len(b); i++ {
+			if b[i] != a[i] {
+				return false
+			}
+		}
+	}
+	return len(chs) > 0
 }
 
 type errReader struct{}
@@ -398,6 +426,8 @@ func execute(c Case) (res worker.Result) {
 				key = "tempfile-outside-tmpdir"
 			case p.Title != "" && !lexInside(sb.wd, lexTitle) && strings.HasPrefix(lexTitle, sb.wd):
 				key = "sibling-with-workdir-name-prefix:" + p.Kind // containment decided by string prefix
+			case remodedOnly(rep.Changes):
+				key = "outside-remoded:" + p.Kind // only permission bits of outside objects changed
 			case pushErr != nil && allDeleted && mech == "":
 				key = "failed-push-cleanup-deletes-outside" // e.g. empty ancestors of the working directory
 			case p.Kind == "blob" || p.Kind == "restore":
